@@ -14,6 +14,7 @@ import RigModel.Model.C03
 import RigModel.Lemmas.C03Tree
 import RigModel.Lemmas.C03AStar
 import RigModel.Lemmas.C03Copy
+import RigModel.Lemmas.C03Ner
 set_option linter.unusedSimpArgs false
 set_option linter.unusedVariables false
 
@@ -67,5 +68,33 @@ is a working chip and every edge it keeps is a working link to the adjacent work
 theorem copyAndDisconnect_live (old : Forest) (root : Chip) (m : Machine) (cs : CopyState)
     (h : copyAndDisconnect old root m = .ok cs) : ForestLive m cs.lookup :=
   L.copyAndDisconnect_live old root m cs h
+
+/-- **LDF walk.**  `n` steps in a unit direction are `n` consecutive hops over the link named by the
+direction (coordinates reduced modulo the machine size after every step). -/
+theorem walk_hops (m : Machine) (dir : Nat) (dx dy : Int) (hdir : dir < 6) (hv : vec dir = (dx, dy))
+    (n : Nat) (pos : Chip) : hopsFrom m pos (walk m.w m.h dir dx dy n pos) = true :=
+  L.walk_hops m dir dx dy hdir hv n pos
+
+/-- the whole longest-dimension-first route, for every vector and every random tie-break, is a chain of
+hops that starts at `start` -/
+theorem ldf_hops (m : Machine) (v : V3) (start : Chip) (t t' : Tape) (p : List (Nat × Chip))
+    (h : ldf v start m.w m.h t = .ok (p, t')) : hopsFrom m start p = true :=
+  L.ldf_hops m v start t t' p h
+
+example : (ldf (2, 0, -1) (0, 0) 3 3 [5, 5, 5]).toOption = some ([(0, (1, 0)), (0, (2, 0)), (1, (0, 1))], []) := by
+  decide
+
+/- Full statement aimed at (DESIGN 3/C03), NOT proved:
+   theorem nerNet_valid : on the fault-free w×h machine (mesh or torus, w,h ≥ 1), for all tapes, radii and
+   destination orders, `nerNet src dests w h wrap radius t = .ok (f, _)` and `toTree f leaves n src = some t`
+   imply `ValidTree m src sinks t`.
+   Proved part: the geometry clause of `hops` for every edge, on every machine size, both topologies,
+   every radius, destination order and tape.  Missing: chip-distinctness (needs "a shortest-vector walk never
+   revisits a chip", i.e. C11's distance theorem), in-bounds on the mesh, connectedness of the forest. -/
+/-- **NER edges (part of `nerNet_valid`).**  Every edge `(parent, l, child)` of the forest `ner_net` builds
+satisfies `l < 6` and `child = parent + vec l (mod w, h)`. -/
+theorem nerNet_edges_partial (m : Machine) (src : Chip) (dests : List Chip) (wrap : Bool) (radius : Nat)
+    (t t' : Tape) (f : Forest) (h : nerNet src dests m.w m.h wrap radius t = .ok (f, t')) : ForestHops m f :=
+  L.nerNet_hops m src dests wrap radius t t' f h
 
 end Rig.C03
